@@ -22,6 +22,7 @@ import (
 	"sync/atomic"
 	"syscall"
 	"time"
+	"unsafe"
 )
 
 type connState = int32
@@ -435,6 +436,7 @@ func (c *connection) initFinalizer() {
 }
 
 func (c *connection) triggerRead(err error) {
+	vp(vpTrigRead, unsafe.Pointer(c), 0, 0)
 	select {
 	case c.readTrigger <- err:
 	default:
@@ -442,6 +444,7 @@ func (c *connection) triggerRead(err error) {
 }
 
 func (c *connection) triggerWrite(err error) {
+	vp(vpTrigWrite, unsafe.Pointer(c), 0, 0)
 	select {
 	case c.writeTrigger <- err:
 	default:
@@ -453,6 +456,7 @@ func (c *connection) waitRead(n int) (err error) {
 	if n <= c.inputBuffer.Len() {
 		return nil
 	}
+	vp(vpWaitSize, unsafe.Pointer(c), int64(n), 0)
 	atomic.StoreInt64(&c.waitReadSize, int64(n))
 	defer atomic.StoreInt64(&c.waitReadSize, 0)
 	if dl := c.readDeadline; dl > 0 {
@@ -472,6 +476,7 @@ func (c *connection) waitRead(n int) (err error) {
 		case user:
 			return Exception(ErrConnClosed, "wait read")
 		default:
+			vp(vpWaitRead, unsafe.Pointer(c), int64(n), 0)
 			err = <-c.readTrigger
 			if err != nil {
 				return err
@@ -500,6 +505,7 @@ func (c *connection) waitReadWithTimeout(n int, timeout time.Duration) (err erro
 			err = Exception(ErrConnClosed, "wait read")
 			goto RET
 		default:
+			vp(vpWaitReadT, unsafe.Pointer(c), int64(n), 0)
 			select {
 			case <-c.readTimer.C:
 				// double check if there is enough data to be read
@@ -518,6 +524,7 @@ func (c *connection) waitReadWithTimeout(n int, timeout time.Duration) (err erro
 RET:
 	// clean timer.C
 	if !c.readTimer.Stop() {
+		vp(vpTimerDrainR, unsafe.Pointer(c), 0, 0)
 		<-c.readTimer.C
 	}
 	return err
@@ -530,6 +537,7 @@ func (c *connection) flush() error {
 	}
 	bs := c.outputBuffer.GetBytes(c.outputBarrier.bs)
 	n, err := sendmsg(c.fd, bs, c.outputBarrier.ivs, false)
+	vp(vpSendmsg, unsafe.Pointer(c), int64(n), 0)
 	if err != nil && err != syscall.EAGAIN {
 		return Exception(err, "when flush")
 	}
@@ -561,6 +569,7 @@ func (c *connection) waitFlush() (err error) {
 		}
 	}
 	if timeout == 0 {
+		vp(vpWaitWrite, unsafe.Pointer(c), 0, 0)
 		return <-c.writeTrigger
 	}
 
@@ -571,13 +580,16 @@ func (c *connection) waitFlush() (err error) {
 		c.writeTimer.Reset(timeout)
 	}
 
+	vp(vpWaitWriteT, unsafe.Pointer(c), 0, 0)
 	select {
 	case err = <-c.writeTrigger:
 		if !c.writeTimer.Stop() { // clean timer
+			vp(vpTimerDrainW, unsafe.Pointer(c), 0, 0)
 			<-c.writeTimer.C
 		}
 		return err
 	case <-c.writeTimer.C:
+		vp(vpWaitWriteT2, unsafe.Pointer(c), 0, 0)
 		select {
 		// try fetch writeTrigger if both cases fires
 		case err = <-c.writeTrigger:
@@ -592,13 +604,16 @@ func (c *connection) waitFlush() (err error) {
 }
 
 func (c *connection) getState() connState {
+	vp(vpState, unsafe.Pointer(c), 0, 0)
 	return atomic.LoadInt32(&c.state)
 }
 
 func (c *connection) setState(newState connState) {
+	vp(vpState, unsafe.Pointer(c), 1, int64(newState))
 	atomic.StoreInt32(&c.state, newState)
 }
 
 func (c *connection) changeState(from, to connState) bool {
+	vp(vpState, unsafe.Pointer(c), 2, int64(from)<<8|int64(to))
 	return atomic.CompareAndSwapInt32(&c.state, from, to)
 }
